@@ -30,6 +30,8 @@ let show_dir (fs : fsys) (d : (n list * n) list) (ref : (n list * n) list option
                   | Some r -> (match dir_lookup r nm with Some j when int_of_n j = int_of_n i -> 1 | _ -> 0)) in
          Printf.sprintf "%s:f:%s:%s:%s:%d" (hex_of_bytes nm) (dec_of_n m.fm_size) (dec_of_n m.fm_head) (dec_of_n m.fm_tail) l)) d)
 
+let rec firstn_ml k l = if k <= 0 then [] else (match l with [] -> [] | x :: r -> x :: firstn_ml (k - 1) r)
+
 (* ---- value-level traces ---- *)
 let st : (vstore * vstore) ref = ref (vinit N0 N0, vinit N0 N0)
 let res_str = function ROk -> "ok" | RNoBackup -> "nobackup" | RBusy -> "busy" | RNone -> "none" | RYes -> "1" | RNo -> "0" | RNoSrc -> "nosrc" | RErr -> "err"
@@ -128,6 +130,40 @@ let () =
       let bi x = if x then 1 else 0 in
       Printf.printf "%s\tfetch=%s ck2_unchanged=%d live_unchanged=%d restore2=%s:%d restore3=%s:%d\n" id (res_str fr) (bi same_ck) (bi live)
         (res_str r2) (bi (int_of_n b4.vs_val = 2)) (res_str r3) (bi (int_of_n b5.vs_val = 3))
+    | id :: "CB" :: _eng :: point :: _ ->
+      (* a backup killed after k of its steps; the engine is assumed to open half written directories *)
+      let v = n_of_int 7 and garbage = n_of_int 9 in
+      let s0 = { cs_dir = DAbsent; cs_marked = false } in
+      let verdict k =
+        let s' = wrun s0 (firstn_ml k (backup_steps v)) in
+        if backup_ok true s' then (if int_of_n (restored_content garbage s') = 7 then "checkpoint-restores-exactly" else "checkpoint-restores-WRONG-content")
+        else "checkpoint-refused" in
+      let out = (match point with
+        | "ck.save.before" -> "killed " ^ verdict 2
+        | "ck.save.after" -> "killed " ^ verdict 4
+        | "ck.purge.before" | "ck.purge.after" -> "killed " ^ verdict 5
+        | _ ->
+          let bad = List.filter (fun k -> verdict k = "checkpoint-restores-WRONG-content") [0;1;2;3;4;5] in
+          if bad = [] then "checkpoint-refused-or-exact" else "killed checkpoint-restores-WRONG-content") in
+      Printf.printf "%s\t%s\n" id out
+    | id :: "CR" :: eng :: point :: _ ->
+      let s0 = { rs_data = DOld; rs_marked = false } in
+      let at k = (match open_after_crash (rrun s0 (firstn_ml k restore_steps)) with DOld -> "open=pre-restore" | DNew -> "open=restored" | DMixed -> "open=OTHER-content") in
+      let timed = String.length point > 0 && point.[0] = 't' in
+      let o = (if timed || eng = "mem" then
+                 (if List.exists (fun k -> at k = "open=OTHER-content") [0;1;2;3;4] then "open=OTHER-content" else "open=complete")
+               else "killed " ^ (match point with "rs.remove.after" -> at 2 | _ -> at 3)) in
+      Printf.printf "%s\t%s restart-restores-exactly checkpoint-unchanged\n" id o
+    | id :: "CF" :: _ ->
+      (* a transfer killed after k steps, then PrepareSnapshot + Restore again *)
+      let v = n_of_int 7 and garbage = n_of_int 9 in
+      let s0 = { cs_dir = DAbsent; cs_marked = false } in
+      let after k =
+        let s' = wrun s0 (firstn_ml k (fetch_steps v)) in
+        let s2 = if backup_ok true s' then s' else wrun s' (fetch_steps v) in
+        if backup_ok true s2 && int_of_n (restored_content garbage s2) = 7 then "restores-exactly" else "restores-WRONG-content" in
+      let out = if List.for_all (fun k -> after k = "restores-exactly") [0;1;2;3;4] then "restores-exactly" else "half-dir-ACCEPTED restores-WRONG-content" in
+      Printf.printf "%s\t%s\n" id out
     | id :: "I" :: _eng :: trials :: _seed :: junk :: _ when junk <> "0" ->
       (* demonstration with a huge data directory: the outcome depends on the time the engine needs to
          list it; not predicted (reported by the harness on the side) *)
